@@ -30,10 +30,12 @@ theorem encLoop_succ (k : Key) (n : Nat) (sum : UInt32) (v : UInt32 × UInt32) :
     rfl
   | succ n ih =>
     rw [encLoop, ih]
-    congr 1
-    · have : UInt32.ofNat (n + 1 + 1) = UInt32.ofNat (n+1) + 1 := by
-        simp [UInt32.ofNat_add]
-      rw [this, UInt32.mul_add, UInt32.mul_one, UInt32.add_assoc, UInt32.add_comm delta]
+    have h2 : UInt32.ofNat (n + 1 + 1) = UInt32.ofNat (n+1) + 1 := by
+      rw [UInt32.ofNat_add (n+1) 1]; simp
+    have h3 : sum + delta + delta * UInt32.ofNat (n + 1) = sum + delta * UInt32.ofNat (n + 1 + 1) := by
+      rw [h2, UInt32.mul_add, UInt32.mul_one, UInt32.add_assoc, UInt32.add_comm delta]
+    rw [h3]
+    conv => rhs; rw [encLoop]
 
 theorem decLoop_encLoop (k : Key) (n : Nat) (sum : UInt32) (v : UInt32 × UInt32) :
     decLoop k n (sum + delta * UInt32.ofNat n) (encLoop k n sum v) = v := by
@@ -42,7 +44,8 @@ theorem decLoop_encLoop (k : Key) (n : Nat) (sum : UInt32) (v : UInt32 × UInt32
   | succ n ih =>
     rw [encLoop_succ, decLoop, decStep_encStep]
     have : sum + delta * UInt32.ofNat (n + 1) - delta = sum + delta * UInt32.ofNat n := by
-      have : UInt32.ofNat (n + 1) = UInt32.ofNat n + 1 := by simp [UInt32.ofNat_add]
+      have : UInt32.ofNat (n + 1) = UInt32.ofNat n + 1 := by
+        rw [UInt32.ofNat_add n 1]; simp
       rw [this, UInt32.mul_add, UInt32.mul_one, ← UInt32.add_assoc, UInt32.add_sub_cancel]
     rw [this, ih]
 
